@@ -279,7 +279,14 @@ spif_cmp_t
 spif_obj_comp(spif_obj_t self, spif_obj_t other)
 {
     SPIF_OBJ_COMP_CHECK_NULL(self, other);
-    return SPIF_CMP_FROM_INT((spif_ulong_t) self - (spif_ulong_t) other);
+    /* (The difference of two addresses does not fit the int that
+       SPIF_CMP_FROM_INT() looks at, so compare them directly.) */
+    if ((spif_ulong_t) self < (spif_ulong_t) other) {
+        return SPIF_CMP_LESS;
+    } else if ((spif_ulong_t) self > (spif_ulong_t) other) {
+        return SPIF_CMP_GREATER;
+    }
+    return SPIF_CMP_EQUAL;
 }
 
 /**
